@@ -69,6 +69,16 @@ class DepEval:
         if isinstance(e, ast.Name):
             r = self.resolve(e)
             return self.denotes(r) if r is not e else {"other"}
+        # the projection `[v for _, v in X.items()]` / `(v for v in X.values())` denotes what X's values denote
+        if isinstance(e, (ast.ListComp, ast.GeneratorExp)) and len(e.generators) == 1 and not e.generators[0].ifs and isinstance(e.elt, ast.Name):
+            g = e.generators[0]
+            if isinstance(g.iter, ast.Call) and isinstance(g.iter.func, ast.Attribute) and not g.iter.args:
+                if g.iter.func.attr == "items" and isinstance(g.target, ast.Tuple) and len(g.target.elts) == 2 and u(g.target.elts[1]) == e.elt.id and u(g.target.elts[0]) != e.elt.id:
+                    return self.denotes(g.iter)
+                if g.iter.func.attr == "values" and isinstance(g.target, ast.Name) and g.target.id == e.elt.id:
+                    return self.denotes(g.iter)
+            if isinstance(g.target, ast.Name) and g.target.id == e.elt.id:
+                return self.denotes(g.iter)
         if isinstance(e, ast.Call) and u(e.func) in ("list", "tuple", "iter") and len(e.args) == 1:
             return self.denotes(e.args[0])
         if isinstance(e, ast.Call) and u(e.func) in ("chain", "itertools.chain"):
